@@ -140,6 +140,27 @@ def frac_vals(rng, keys):
     return [F(rng.randint(-6, 6), rng.randint(1, 4)) for _ in keys]
 
 
+# the user-level spelling of every operator (the properties are stated for a*b, a+b, ~a, a.lc(b), ..); run_case alternates
+# between it and the algebra-level call alg.<name>(a, b), so that a fast path in either layer is exercised
+USER_FORM = {
+    'gp': lambda a, b: a * b, 'op': lambda a, b: a ^ b, 'ip': lambda a, b: a | b, 'rp': lambda a, b: a & b,
+    'add': lambda a, b: a + b, 'sub': lambda a, b: a - b, 'sw': lambda a, b: a >> b, 'proj': lambda a, b: a @ b,
+    'lc': lambda a, b: a.lc(b), 'rc': lambda a, b: a.rc(b), 'sp': lambda a, b: a.sp(b), 'cp': lambda a, b: a.cp(b),
+    'acp': lambda a, b: a.acp(b), 'div': lambda a, b: a / b,
+    'neg': lambda a: -a, 'reverse': lambda a: ~a, 'involute': lambda a: a.involute(), 'conjugate': lambda a: a.conjugate(),
+    'hodge': lambda a: a.hodge(), 'unhodge': lambda a: a.unhodge(), 'polarity': lambda a: a.polarity(),
+    'unpolarity': lambda a: a.unpolarity(), 'normsq': lambda a: a.normsq(), 'inv': lambda a: a.inv(),
+}
+_toggle = [0]
+
+
+def _call(alg, name, *ops):
+    _toggle[0] += 1
+    if name in USER_FORM and _toggle[0] % 2:
+        return USER_FORM[name](*ops)
+    return getattr(alg, name)(*ops)
+
+
 def run_case(alg, fr, name, ak, av, bk=None, bv=None):
     """Run the real operator; return (ok, record)."""
     a = mv_from(alg, ak, av)
@@ -152,13 +173,13 @@ def run_case(alg, fr, name, ak, av, bk=None, bv=None):
                 exp = ('value', ref_binary(fr, name, A, B))
             except ZeroDivisionError:
                 exp = ('raise', 'ZeroDivisionError')
-            got_mv = getattr(alg, name)(a, b)
+            got_mv = _call(alg, name, a, b)
         else:
             try:
                 exp = ('value', ref_unary(fr, name, A))
             except ZeroDivisionError:
                 exp = ('raise', 'ZeroDivisionError')
-            got_mv = getattr(alg, name)(a)
+            got_mv = _call(alg, name, a)
         got = ('value', fr.mv_to_ref(got_mv))
         dup = len(set(got_mv.keys())) != len(got_mv.keys())
     except ZeroDivisionError:
